@@ -60,16 +60,26 @@ def Ev.dur : Ev → Int
   | .link _ _ d => d
   | .two _ _ d => d
 
-def siteTotal (v : Nat) (tr : List Ev) : Int :=
-  (tr.map fun e => match e with | .site w d => if w = v then d else 0 | _ => 0).sum
+def siteW (v : Nat) : Ev → Int
+  | .site w d => if w = v then d else 0
+  | _ => 0
 
-def linkTotal (a b : Nat) (tr : List Ev) : Int :=
-  (tr.map fun e => match e with | .link x y d => if sameEdge a b x y then d else 0 | _ => 0).sum
+def linkW (a b : Nat) : Ev → Int
+  | .link x y d => if sameEdge a b x y then d else 0
+  | _ => 0
 
-def twoTotal (a b : Nat) (tr : List Ev) : Int :=
-  (tr.map fun e => match e with | .two x y d => if sameEdge a b x y then d else 0 | _ => 0).sum
+def twoW (a b : Nat) : Ev → Int
+  | .two x y d => if sameEdge a b x y then d else 0
+  | _ => 0
 
-def durTotal (tr : List Ev) : Int := (tr.map Ev.dur).sum
+/-- Sum of a weight over a trace. -/
+def tot (w : Ev → Int) (tr : List Ev) : Int := (tr.map w).sum
+
+def siteTotal (v : Nat) (tr : List Ev) : Int := tot (siteW v) tr
+def linkTotal (a b : Nat) (tr : List Ev) : Int := tot (linkW a b) tr
+def twoTotal (a b : Nat) (tr : List Ev) : Int := tot (twoW a b) tr
+
+def durTotal (tr : List Ev) : Int := tot Ev.dur tr
 
 /-- Number of segments that are the (unordered) edge `{a,b}`. -/
 def edgeCount (a b : Nat) (segs : List Seg) : Int :=
